@@ -49,8 +49,9 @@ def real_attrs(t, v):
         return {'key': KEYS[v[0] - 1]}
     if t == 'sequencer_specific':
         # every kind of sequence the documentation allows (a list is the documented form)
-        k = (len(v) + sum(v)) % 4
-        return {'data': list(v) if k == 0 else tuple(v) if k == 1 else bytes(v) if k == 2 else bytearray(v)}
+        k = (len(v) + sum(v)) % 7
+        return {'data': list(v) if k == 0 else tuple(v) if k == 1 else bytes(v) if k == 2 else bytearray(v) if k == 3
+                else (b for b in v) if k == 4 else iter(list(v)) if k == 5 else map(int, v)}
     return dict(zip(ATTRS[t], v))
 
 
@@ -496,7 +497,7 @@ CHECK_DEADLOCK FALSE
     ctx.constants = {'cfg': cfg.split('\n')[2:6]}
     ctx.assumptions += [
         'text is modelled as the byte sequence of its encoding; the driver instantiates it with latin1 (the default charset), C17 covers other charsets',
-        'sequencer_specific data is given as list, tuple, bytes or bytearray in turn',
+        'sequencer_specific data is given as list, tuple, bytes, bytearray, generator, iterator or map object in turn',
         'values of the wrong type are driver-level constants, the specification only states that they are outside every domain',
     ]
     for key, msg in check_custom_spec():
